@@ -175,11 +175,18 @@ def scenarios(tier):
                 clients = [dict(script=script),
                            dict(script=canary_script(b'c'), start_turn=off),
                            dict(script=canary_script(b't'), start_turn='idle')]
+                # ... and a TWIN of the adversary itself, once everything else is over and with no more faults: a
+                # connection that needs whatever the adversary needed (the same canned responses, routes, upstreams)
+                # must still be treated exactly as when it is alone
+                twin = script[-1][0] in ('close', 'wait_eof') and off == 0
+                if twin:
+                    clients.append(dict(script=list(script), start_turn='idle', faults_off=True))
                 out.append(Scenario(
                     '%s/%s/canary@%s' % (mode, name, off), fa, flags_opts=fo, mode=mode, clients=clients,
                     origins=og, dns=d, net=net, kinds='AF' if tier == 'quick' else 'AFOE', horizon=600,
                     features=dict({'mode': mode, 'role': role, 'adversary': name, 'canary_offset': str(off),
-                                   '_fault_clients': {'c0'}, '_fault_addrs': ADV_ADDRS},
+                                   '_fault_clients': {'c0'}, '_fault_addrs': ADV_ADDRS, '_twin': 3 if twin else None,
+                                   '_twin_ref': (mode, name, script, origins, dns, net) if twin else None},
                                   **({'_sockbuf': 4096} if 'not-reading' in name else {}))))
     return out + tls_front_scenarios(tier) + idle_scenarios(tier) + neighbour_scenarios(tier)
 
@@ -304,6 +311,21 @@ def reference(mode):
     return _REF[mode]
 
 
+_TWIN = {}
+
+
+def twin_reference(scn):
+    mode, name, script, origins, dns, net = scn.features['_twin_ref']
+    if (mode, name) not in _TWIN:
+        alone = Scenario('twinref/%s/%s' % (mode, name), scn.flags_args, flags_opts=scn.flags_opts, mode=mode,
+                         clients=[dict(script=list(script))], origins=origins, dns=dns, net=net, kinds='', horizon=600,
+                         features={k: v for k, v in scn.features.items() if k == '_sockbuf'})
+        w = netmc.execute(alone, ())
+        c = w.clients[0]
+        _TWIN[(mode, name)] = (bytes(c.rx), c.eof or c.rst)
+    return _TWIN[(mode, name)]
+
+
 def check(w):
     out = []
     if w.died or w.run_exc:
@@ -317,6 +339,13 @@ def check(w):
         if any(not c.connected for c in w.clients):
             out.append({'symptom': 'later_connection_never_accepted', 'features': {}, 'detail': None})
         return out
+    if w.scn.features.get('_twin') is not None and len(w.clients) > w.scn.features['_twin']:
+        tw = w.clients[w.scn.features['_twin']]
+        got = (bytes(tw.rx), tw.eof or tw.rst) if tw.connected else ('never-connected',)
+        want = twin_reference(w.scn)
+        if got != want:
+            out.append({'symptom': 'later_connection_like_the_adversary_not_treated_as_when_alone', 'features': {},
+                        'detail': {'got': (got[0][:120],) + tuple(got[1:]), 'want': (want[0][:120],) + tuple(want[1:])}})
     ref = reference(w.scn.mode)
     cans = w.scn.features.get('_canaries')
     for idx, label in (((cans[0], 'canary'), (cans[1], 'subsequent')) if cans else ((1, 'canary'), (2, 'subsequent'))):
